@@ -44,7 +44,10 @@ type script = { feats : feats; actions : action list }
 let parse_action l =
   match words l with
   | ["spawn"; cap; auto] -> DSpawn (nat cap, b auto)
-  | ["op"; o; k; sl; t] -> DOp (nat o, kind_of k, nat sl, tmo_of t)
+  | ["op"; o; k; sl; t] -> DOp (nat o, kind_of k, nat sl, tmo_of t, FlAsync)
+  | ["op"; o; k; sl; t; fl] ->
+      DOp (nat o, kind_of k, nat sl, tmo_of t,
+           (match fl with "b" | "s" | "i" -> FlBlocking | "d" -> FlDeprecated | _ -> FlAsync))
   | ["kill"; sl] -> DKill (nat sl)
   | ["clone"; s; d] -> DClone (nat s, nat d)
   | ["drop"; s] -> DDrop (nat s)
